@@ -340,6 +340,11 @@ pub fn new_var(solver: &mut Solver, decl: &VarDecl, name: Option<String>, earlie
             (id, None)
         }
         VarKind::Lit => {
+            if decl.values == [1] && decl.def.is_none() {
+                // the constant literal of the solver
+                let l = solver.get_true_literal();
+                return (l.get_true_predicate().get_domain(), Some(l));
+            }
             let l = match (decl.def, name) {
                 // (there is no named form of this call)
                 (Some(p), _) => solver.new_literal_for_predicate(to_predicate(earlier[p.var], &p)),
